@@ -430,6 +430,110 @@ def run(ctx):
                 run.finding(Finding(R6, fid, "a scan that may delete unconfirmed outputs runs on records that were not refreshed first (a mined but not yet refreshed output would be deleted)", site=c.site_of(f, b)))
     if ncall < 2:
         run.error("C16.R6: expected at least two callers of internal::scan::scan, found %d" % ncall)
+    R7 = "C16.R7"
+    run.rule(R7, "the key of a new output is derived under the account the output is filed under (a restore attributes outputs by their key path, the wallet by root_key_id / the context's account)", floor=3)
+    from ..callgraph import non_production
+    NEXT_CHILD = c.WB + "next_child"
+    NAK = c.LW + "internal::keys::next_available_key"
+    PKI = c.WB + "parent_key_id"
+    CTX_NEW = c.LW + "types::Context::new"
+    NOISE = ("core::ops::control_flow::ControlFlow", "core::option::Option", "core::result::Result", "()")
+
+    def _srcs(f, o, depth=0, seen=None):
+        """Where an account operand comes from: 'ACTIVE' (the backend's current account), ('field', adt, name), ('?', ..)."""
+        out = set()
+        for x in vf.producers(f, o):
+            if x[0] in ("call", "mutcall"):
+                if x[1] == PKI:
+                    out.add("ACTIVE")
+                elif x[1] in vf.TRANSPARENT_CALLS or x[1].endswith(("Clone::clone", "Try::branch")):
+                    continue
+                elif x[1] == c.WB + "get_acct_path":
+                    continue  # its result is seen as the AcctPathMapping.path field
+                else:
+                    out.add(("call", pp.short(x[1])))
+            elif x[0] == "field":
+                if x[1].startswith(NOISE):
+                    continue
+                out.add(("field", x[1].split("::")[-1], x[2]))
+            elif x[0] == "arg":
+                if depth >= 4:
+                    out.add(("?", "param of %s" % pp.short(f.id)))
+                    continue
+                callers = [cf_ for cf_ in ctx.cg.callers(f.id) if not non_production(cf_) and cf_ in db.fns]
+                if not callers:
+                    out.add(("param", pp.short(f.id), x[1]))
+                for cf_ in callers:
+                    g = db.fns[cf_]
+                    for _cb, t in cfg.find_calls(g, f.id):
+                        if x[1] - 1 < len(t["a"]):
+                            out |= _srcs(g, t["a"][x[1] - 1], depth + 1)
+            elif x[0] == "const":
+                continue
+        return out
+
+    def _filed(f):
+        """Operands naming the account under which function f files what it creates."""
+        out = []
+        for _b, st in vf.struct_literals(f, OD):
+            o = vf.literal_field(st, "root_key_id")
+            if o is not None:
+                out.append(("OutputData.root_key_id", o))
+        for _b, t in f.calls():
+            if t.get("f") == CTX_NEW and len(t["a"]) > 1:
+                out.append(("Context::new(parent_key_id)", t["a"][1]))
+        return out
+
+    n7 = 0
+    for fid, f in sorted(db.fns.items()):
+        if non_production(fid) or fid == NAK:
+            continue
+        for b, t in f.calls():
+            if t.get("f") not in (NEXT_CHILD, NAK):
+                continue
+            explicit = t["a"][2] if len(t["a"]) > 2 else None
+            # the frame in which the new output is filed: this function, else its (transitive) single callers
+            frame, chain, under = f, [pp.short(fid)], explicit
+            frozen = {"ACTIVE"} if explicit is None else None  # account sources once they are no longer a parameter
+            filed = _filed(frame)
+            hops = 0
+            while not filed and hops < 3:
+                callers = [cf_ for cf_ in ctx.cg.callers(frame.id) if not non_production(cf_) and cf_ in db.fns]
+                if len(callers) != 1:
+                    break
+                g = db.fns[callers[0]]
+                if frozen is None:
+                    # follow an explicit account operand into the caller's frame while it is a plain parameter
+                    pr = vf.producers(frame, under)
+                    args = [x[1] for x in pr if x[0] == "arg"]
+                    sites = cfg.find_calls(g, frame.id)
+                    if len(pr) == len(args) == 1 and sites and args[0] - 1 < len(sites[0][1]["a"]):
+                        under = sites[0][1]["a"][args[0] - 1]
+                    else:
+                        frozen = _srcs(frame, under)
+                        under = None
+                frame = g
+                chain.append(pp.short(g.id))
+                filed = _filed(frame)
+                hops += 1
+            n7 += 1
+            if not filed:
+                run.instance(R7, {"fn": pp.short(fid), "obligation": "derived key is not filed by the wallet here (handed to the caller)", "site": c.site_of(f, b)}, held=True)
+                continue
+            dsrc = frozen if frozen is not None else _srcs(frame, under)
+            bad = []
+            for what, o in filed:
+                fs = _srcs(frame, o)
+                if frozen is None and vf.base_local_of_ref(frame, under) is not None and vf.base_local_of_ref(frame, under) == vf.base_local_of_ref(frame, o):
+                    continue
+                if fs != dsrc:
+                    bad.append((what, sorted(map(str, fs - dsrc))))
+            held = not bad
+            run.instance(R7, {"fn": pp.short(fid), "obligation": "key derived under %s; filed under the same account" % ("the active account" if frozen == {"ACTIVE"} else "an explicit account"), "frame": chain, "filed": [w for w, _o in filed], "site": c.site_of(f, b)}, held=held)
+            if not held:
+                run.finding(Finding(R7, fid, "a new output's key is derived under %s but the output is filed under an account that can differ: the wallet and a restore from seed attribute it to different accounts" % ("the active account" if frozen == {"ACTIVE"} else "another account operand"), site=c.site_of(f, b), detail="; ".join("%s <- %s" % (w, ", ".join(d)) for w, d in bad)))
+    if n7 == 0:
+        run.error("C16.R7: no key derivation site (next_child / next_available_key) found")
     run.not_decided += [
         "completeness over chain histories ('exactly the outputs of the seed') - depends on range-proof rewinding and the node's paging",
         "equality of the restored totals with the original wallet",
